@@ -12,7 +12,7 @@ static char invmsg[256], invmsg2[300];
 
 /* per-class text tables; index = id (1-based); id order = text order */
 static const char *T_PAIR[] = {NULL, "1", "2", "3"};
-static const char *T_TOKSRC[] = {NULL, "a b 'c d'", "x:y", "y;z:w"};
+static const char *T_TOKSRC[] = {NULL, "  ", "a b 'c d'", "x:y", "y;z:w"};      /* 1: blanks only - evaluates to an EMPTY token list */
 static const char *T_TOKSEP[] = {NULL, ":", ";", "|"};
 /* url and regexp: text 1 is blanks only (the parent class's trim empties it) */
 static const char *T_URL[] = {NULL, "  ", "h2", "http://u:pw@h1:80/p?q"};
@@ -20,7 +20,7 @@ static const char *T_URLHOST_PARSED[] = {NULL, "  ", "h2", "h1"};
 static const char *T_HOSTSET[] = {NULL, "zz1", "zz2", "zz3"};
 static const char *T_RE[] = {NULL, "  ", "a", "b+"};
 static const char *T_SUBJ[] = {NULL, "a", "bb", "A", "c"};
-static const int TOKCOUNT[4][4] = {{0, 0, 0, 0}, {3, 1, 1, 1}, {1, 2, 1, 1}, {1, 2, 2, 1}};   /* [src][sep] */
+static const int TOKCOUNT[5][4] = {{0, 0, 0, 0}, {0, 1, 1, 1}, {3, 1, 1, 1}, {1, 2, 1, 1}, {1, 2, 2, 1}};   /* [src][sep] */
 
 static int id_of(const char *s, const char **tab, int n) {
     int i;
@@ -59,7 +59,7 @@ static const char *project(int k, vh_sb *out) {
         q = id_of(strtext(SPIF_STR(x->value)), T_PAIR, 3);
     } else if (is("tok")) {
         spif_tok_t x = (spif_tok_t) o;
-        p = id_of(strtext(spif_tok_get_src(x)), T_TOKSRC, 3);
+        p = id_of(strtext(spif_tok_get_src(x)), T_TOKSRC, 4);
         q = id_of(strtext(spif_tok_get_sep(x)), T_TOKSEP, 3);
         r = !SPIF_LIST_ISNULL(spif_tok_get_tokens(x));
         if (r) {
@@ -67,7 +67,8 @@ static const char *project(int k, vh_sb *out) {
             if (n != TOKCOUNT[ev_src[k]][ev_sep[k]]) { snprintf(invmsg, sizeof(invmsg), "tok:%s_token_count=%ld_expected=%d", k ? "b" : "a", n, TOKCOUNT[ev_src[k]][ev_sep[k]]); return invmsg; }
             for (i = 0; i < n; i++) {
                 spif_obj_t t = SPIF_LIST_GET(spif_tok_get_tokens(x), (spif_listidx_t) i);
-                if (SPIF_OBJ_ISNULL(t) || strlen((const char *) SPIF_STR_STR(SPIF_STR(t))) != (size_t) spif_str_get_len(SPIF_STR(t))) return "tok:token_unreadable";
+                /* a token of blanks only is trimmed to the empty text, which the str class holds without a buffer */
+                if (SPIF_OBJ_ISNULL(t) || strlen(strtext(SPIF_STR(t)) ? strtext(SPIF_STR(t)) : "") != (size_t) spif_str_get_len(SPIF_STR(t))) return "tok:token_unreadable";
             }
         }
     } else if (is("url")) {
@@ -173,7 +174,7 @@ static const char *vh_step(const vh_step_t *st, vh_sb *ret, vh_sb *state) {
         spif_tok_t x = (spif_tok_t) S[k];
         spif_bool_t r = spif_tok_eval(x);
         if (r) {
-            ev_src[k] = id_of(strtext(spif_tok_get_src(x)), T_TOKSRC, 3);
+            ev_src[k] = id_of(strtext(spif_tok_get_src(x)), T_TOKSRC, 4);
             ev_sep[k] = id_of(strtext(spif_tok_get_sep(x)), T_TOKSEP, 3);
         }
         sb_bool(ret, r);
